@@ -561,6 +561,9 @@ def check_C07(ctx):
     # misses of the reserved names themselves: the class must come from the table row of the last label
     near7 = [d for d in gens.reserved_suffixes() if b'@' not in d and b'..' not in d]
     doms += sub(ctx, near7, 2) + [b'x.' + d for d in sub(ctx, near7, 3)]
+    # ... behind second-level labels of exactly 7 octets (the length of 'example'): whatever a scratch buffer still holds from that label must not complete the last one
+    cuts = [r[:k] for r in (b'example', b'invalid', b'localhost', b'onion', b'test') for k in range(2, len(r) + 1)] + [b'com', b'co', b'org', b'ne', b'zz', b'exams']
+    doms += [p + b'.' + c for p in (b'example', b'trample', b'squalid', b'invalid', b'Example', b'abcdefg') for c in cuts] + [b'www.example.' + c for c in cuts]
     for w in (b'exabyte', b'examine', b'exampla', b'exaaaaa', b'EXAmplx', b'exam', b'examples', b'xxample', b'exxmple', b'testing', b'invalix', b'onionx'):
         doms += [w + b'.' + t for t in (b'com', b'net', b'org', b'de', b'museum', b'arpa')] + [b'a.' + w + b'.com']
     orc = vlib.idn_oracle(doms)
@@ -975,6 +978,24 @@ def code_truth(rc, mode, tld, a, orc_rc, alabel, tldset):
     if rc == -23 and b'.' in Dx: return '"not FQDN" but the domain contains a dot'
     if rc in (-24, -25) and not D.startswith(b'['): return 'an address-literal complaint but the domain does not start with ['
     if rc == -25 and b']' in D: return '"bracket unpaired" but the domain contains ]'
+    if rc == -24 and D.endswith(b']') and D.count(b'[') == 1 and D.count(b']') == 1:
+        # "ip-addr is incorrect": untrue when the text between the brackets is a canonical-form address by an independent parser (Python's ipaddress:
+        # it refuses leading zeros, scopes, anything but plain IPv4 / IPv6 text, so it only ever contradicts the code on well-formed literals)
+        import ipaddress
+        body = D[1:-1]
+        try:
+            txt = body.decode('ascii')
+            quad = txt.rsplit(':', 1)[-1]
+            if '.' in quad and quad.split('.')[0].strip('0') == '': raise ValueError('first octet 0: the library refuses "this network" addresses; no claim')
+            if txt[:5] == 'IPv6:':
+                body6 = txt[5:]
+                ng = sum(2 if '.' in g else 1 for g in body6.replace('::', ':').split(':') if g)
+                # RFC 5321 4.1.3: with '::' no more than 6 groups (4 before an IPv4 tail) may be present; without it exactly 8 (6 + tail)
+                if '%' not in body6 and (('::' in body6 and ng <= 6) or ('::' not in body6 and ng == 8)): ipaddress.IPv6Address(body6); return '"ip-addr is incorrect" but the tagged literal is a well-formed IPv6 address'
+            if ':' not in txt:       # (an untagged IPv6 literal IS incorrect by RFC 5321 4.1.3, whatever the library makes of it: no claim there)
+                ipaddress.IPv4Address(txt); return '"ip-addr is incorrect" but the literal is a well-formed IPv4 address'
+        except (ValueError, UnicodeDecodeError):
+            pass
     if rc == -26 and labels and labels[-1].lower() in tldset and b'.' in Dx and not Dx.endswith(b'.'): return '"invalid TLD" but the last label is in the table'
     return None
 
@@ -989,6 +1010,8 @@ def check_C15(ctx):
     for nme, l, t in tab['tld']:
         byclass.setdefault(t, bytes.fromhex(nme))
     addrs += [b'a@b.' + v for v in byclass.values()]
+    # address literals: every content shape of the C05 family, among them both letter cases of the hexadecimal digits
+    addrs += [b'u@[' + c + b']' for c in sub(ctx, gens.ip_contents(), 3)] + [b'u@[' + c + b']' for c in (b'A::1:2:3', b'IPv6:A::1', b'IPv6:2001:DB8::1', b'IPv6:aBcD:EF01::', b'::FFFF:1.2.3.4', b'IPv6:F::', b'fe80::A')]
     # non-ASCII characters next to the structural characters of a local part (among them code points whose low byte is '.', '"', '@', '\\')
     for ch in ['\u00e9', '\u012e', '\u042e', '\u062e', '\u4e2e', '\U0001f62e', '\u0122', '\u0422', '\u0140', '\u045c', '\u20ac', '\U0001f600']:
         x = ch.encode()
